@@ -18,7 +18,7 @@ func init() {
 		ID:    "C13",
 		Title: "A WAF follows its own configuration only; pattern caching is invisible",
 		Explanation: "Decides the cache-key discipline of the process-wide memoizer, not behavioural equality with an uncached build: R1 every memoize call site builds its key from a constant role prefix; call sites sharing a prefix cache the same dynamic type built by the same constructor, and distinct prefixes are pairwise prefix-free (no key of one role can equal a key of another); " +
-			"R2 completeness: every variable captured by the cached closure is derived from values the key is computed from (dependency closure over SSA operands; results of impure calls such as file reads count as sources of their own); " +
+			"R2 completeness and losslessness: every variable captured by the cached closure is derived from values the key is computed from, and reaches the key through concatenation/formatting/hashing only (not through a normalising function that maps different inputs to one key) (dependency closure over SSA operands; results of impure calls such as file reads count as sources of their own); " +
 			"R3 WAF.Close releases the WAF's entries exactly once and Release deletes an entry only when its owner set is empty, under the entry lock; R5 cached objects are never mutated in place (no call of (*Regexp).Longest, the only mutating method of the cached library types); R4 the three build variants of the memoize package export the same API (each configuration type-checks, thorough tier).",
 		NotDecided: []string{
 			"behavioural equality with the cache compiled out",
